@@ -38,6 +38,8 @@ _KERNELS: Dict[str, tuple] = {
     "ncclDevKernel_ReduceScatter_Sum_f32_RING_LL(ncclDevComm*, unsigned long, ncclWork*)": (
         COMMUNICATION, "ncclDevKernel_ReduceScatter_Sum_f32_RING_LL"),
     "ncclKernel_SendRecv": (COMMUNICATION, "ncclKernel_SendRecv"),
+    # the naming of NCCL <= 2.10: the collective sits between "nccl" and "Kernel" (HTA's documented pattern is ^nccl.*Kernel)
+    "ncclAllReduceRingLLKernel_sum_f32(ncclColl)": (COMMUNICATION, "ncclAllReduceRingLLKernel_sum_f32"),
     # memory
     "Memcpy DtoH (Device -> Pinned)": (MEMORY, "Memcpy DtoH (Device -> Pinned)"),
     "Memcpy HtoD (Pageable -> Device)": (MEMORY, "Memcpy HtoD (Pageable -> Device)"),
